@@ -33,6 +33,11 @@ def world_factory(cell):
 def run_cell(args):
     cell, seed, deadline = args
     t0 = time.time()
+    soft = cell.get("soft_s")
+    capped_by_soft = False
+    if soft is not None and (deadline is None or t0 + soft < deadline):
+        deadline = t0 + soft
+        capped_by_soft = True
     try:
         from . import explorer
 
@@ -54,6 +59,7 @@ def run_cell(args):
             "complete": r["complete"],
             "samples": r["samples"][:1],
             "wall": time.time() - t0,
+            "soft_capped": capped_by_soft and not r["complete"] and not r["violations"],
         }
         xv = cell.get("xval")
         if xv is not None and r["complete"] and not r["violations"]:
@@ -151,6 +157,10 @@ def run_property(prop, tier, seed, jobs=None, only=None, budget=None):
     jobs = jobs or min(16, os.cpu_count() or 1, max(1, len(cells)))
     order = list(range(len(cells)))
     order.sort(key=lambda i: -cells[i].get("weight", 1))
+    soft = getattr(mod, "SOFT_S", {}).get(tier, 20 if tier == "quick" else 90)
+    if jobs > 1:
+        for c in cells:
+            c.setdefault("soft_s", soft)
     work = [(cells[i], seed, deadline) for i in order]
     results = {}
     if jobs == 1:
@@ -162,8 +172,20 @@ def run_property(prop, tier, seed, jobs=None, only=None, budget=None):
         with ctx.Pool(jobs, maxtasksperchild=8) as pool:
             for r in pool.imap_unordered(run_cell, work, chunksize=1):
                 results[r["name"]] = r
-    wall = time.time() - t0
     byname = {c["name"]: c for c in cells}
+    # phase 2: cells too large for one core within the soft cap are explored again from scratch by
+    # all cores sharing one visited table (aiomc/parallel.py), one cell at a time
+    big = [n for n, r in results.items() if r.get("soft_capped")]
+    if big:
+        from .parallel import explore_parallel
+
+        for n in sorted(big):
+            if time.time() > deadline - 2:
+                break
+            r = explore_parallel(byname[n], nworkers=min(16, os.cpu_count() or 1), deadline=deadline)
+            r["phase1_states_discarded"] = results[n]["stats"]["states"]
+            results[n] = r
+    wall = time.time() - t0
     errors = [r for r in results.values() if "error" in r]
     known = [k for k in load_known() if k["property"] == prop]
     viol_lines = []
@@ -212,6 +234,7 @@ def run_property(prop, tier, seed, jobs=None, only=None, budget=None):
             "terminal_observations": r["observations"],
             "complete": r["complete"],
             "wall_s": round(r["wall"], 2),
+            "parallel_workers": r.get("parallel_workers", 1),
         })
         if r.get("samples") and len(samples) < 3:
             samples.append({"cell": name, "scenario": byname[name]["scen"], "schedule": r["samples"][0]})
